@@ -26,6 +26,7 @@ func runMPT(args []string) (map[string]any, error) {
 	maxOps := c.fs.Int("maxops", 25, "max ops per generated history")
 	allCfg := c.fs.Bool("allcfg", false, "run every history on every store configuration")
 	shapeEvery := c.fs.Int("shapeevery", 1, "log the parsed shape every k-th event")
+	cfgIdx := c.fs.Int("cfgidx", -1, "force one store configuration (replay)")
 	c.fs.Parse(args)
 	w, err := tr.New(*c.out, *c.shards)
 	if err != nil {
@@ -34,15 +35,18 @@ func runMPT(args []string) (map[string]any, error) {
 	in := tr.NewInterner()
 	st := &exec.MPTStats{Contents: map[string]bool{}, RootGroups: map[string]map[int]bool{}, Classes: map[string]bool{}}
 	tid := 0
-	run := func(h []exec.MOp, idx int, se int) {
-		if *allCfg {
-			for _, cfg := range mptConfigs {
+	run := func(h exec.MHist, idx int, se int) {
+		if *cfgIdx >= 0 {
+			tid++
+			exec.RunMPTHistory(w, in, st, tid, *cfgIdx, mptConfigs[*cfgIdx%len(mptConfigs)], h, se)
+		} else if *allCfg {
+			for ci, cfg := range mptConfigs {
 				tid++
-				exec.RunMPTHistory(w, in, st, tid, cfg, h, se)
+				exec.RunMPTHistory(w, in, st, tid, ci, cfg, h, se)
 			}
 		} else {
 			tid++
-			exec.RunMPTHistory(w, in, st, tid, mptConfigs[idx%len(mptConfigs)], h, se)
+			exec.RunMPTHistory(w, in, st, tid, idx%len(mptConfigs), mptConfigs[idx%len(mptConfigs)], h, se)
 		}
 	}
 	nTLC := 0
@@ -58,7 +62,7 @@ func runMPT(args []string) (map[string]any, error) {
 	}
 	r := rand.New(rand.NewSource(*c.seed))
 	for i := 0; i < *c.n; i++ {
-		run(exec.GenMPTHistory(r, *maxOps), r.Intn(1000), *shapeEvery)
+		run(exec.MHist{Ops: exec.GenMPTHistory(r, *maxOps)}, r.Intn(1000), *shapeEvery)
 	}
 	exec.EmitRootGroups(w, st, 0)
 	if err := w.Close(); err != nil {
